@@ -26,7 +26,7 @@ SpecCell(gg, s, X) == A[gg].tbl[s + 1][X]
 DumpCell(gg, s, X) == Ds[gg].table[s + 1][SymIdx(gg, X)]
 
 GRof(gg) == [nnt |-> Gs[gg].nnt, nt |-> Gs[gg].nt, R |-> A[gg].R, tnames |-> Gs[gg].tnames,
-             ruletext |-> Gs[gg].ruletext, obsT |-> Gs[gg].obsT, obsC |-> Gs[gg].obsC, dflt |-> Gs[gg].dflt, lexobs |-> Gs[gg].lexobs]
+             ruletext |-> Gs[gg].ruletext, obsT |-> Gs[gg].obsT, obsC |-> Gs[gg].obsC, dflt |-> Gs[gg].dflt, ctxr |-> Gs[gg].ctxr, lexobs |-> Gs[gg].lexobs]
 
 \* reference lexer for grammars whose terms are single characters (host grammars): first listed wins
 RECURSIVE FirstCharTerm(_, _, _)
